@@ -28,6 +28,9 @@ from finam.sdk.adapter import Adapter
 from finam.adapters.time import TimeCachingAdapter
 
 
+PUSH_BASED_KINDS = ("linear", "next", "prev", "step", "avg", "sum", "stack")
+
+
 class HPull(fm.Component):
     """Pull-based pass-through: output value = sum of its inputs, pulled for the requested time."""
 
@@ -169,6 +172,14 @@ def build(ctx, topo):
                 a >> b
                 edges.add((id(a), id(b)))
         l["adapters"] = elems[1:-1]
+
+    def chain_kinds(li):
+        tap = topo["links"][li].get("tap")
+        prefix = chain_kinds(tap[0])[: tap[1] + 1] if tap is not None else []
+        return prefix + list(links[li]["ada_spec"])
+
+    for l in links:
+        l["kinds"] = chain_kinds(l["idx"])
     return dict(comps=comps, listed=listed, links=links, composition=composition, base=base,
                 delays=delays, topo=topo)
 
@@ -207,15 +218,21 @@ def make_adapter(ctx, kind, tag, delays):
 # specification walker (independent of finam.schedule)
 # ----------------------------------------------------------------------------
 def link_request(link, t):
-    """Time that will reach the source output when the consumer requests ``t``:
-    the adapters' documented shifts applied in pull order (input side first),
-    accumulating.  Returns None if a dependency-breaking adapter is on the link."""
-    for ada in reversed(link["adapters"]):
-        if isinstance(ada, NoDependencyAdapter):
+    """Time that will reach the source output when the consumer requests ``t``: the documented shifts of
+    the adapters applied in pull order (input side first), accumulating.  Decided from the KIND each adapter
+    was created with in the topology spec (not from finam's marker classes, which are part of what is being
+    checked).  Returns None if a dependency-breaking adapter (DelayToPush) is on the link."""
+    kinds = link.get("kinds") or [None] * len(link["adapters"])
+    for ada, kind in zip(reversed(link["adapters"]), reversed(kinds)):
+        if kind is None:
+            kind = ("dpush" if isinstance(ada, NoDependencyAdapter) else
+                    "delay" if isinstance(ada, ITimeDelayAdapter) else
+                    "push_based" if ada.needs_push else "plain")
+        if kind == "dpush":
             return None
-        if isinstance(ada, ITimeDelayAdapter):
+        if kind == "dfix" or kind.startswith("dpull") or kind == "delay":
             t = ada.with_delay(t)
-        if ada.needs_push:
+        if kind in PUSH_BASED_KINDS or kind == "push_based":
             # a push-based adapter serves from a buffer filled at the source's push times: it can
             # serve t only if the source has pushed at or beyond t, whatever sits further upstream
             return t
@@ -241,12 +258,12 @@ def spec_lag_conditions(w, comp, t):
 
 
 def delay_before_push_based(link):
-    """True if a delay adapter sits on the source side of a push-based adapter on this link"""
+    """True if a time-shifting adapter sits on the source side of a push-based adapter on this link"""
     seen_delay = False
-    for ada in link["adapters"]:  # source side first
-        if isinstance(ada, ITimeDelayAdapter):  # DelayFixed, DelayToPull and the dependency-breaking DelayToPush
+    for kind in link.get("kinds", []):  # source side first
+        if kind == "dfix" or kind.startswith("dpull") or kind == "dpush":
             seen_delay = True
-        elif ada.needs_push and seen_delay:
+        elif kind in PUSH_BASED_KINDS and seen_delay:
             return True
     return False
 
@@ -723,9 +740,6 @@ def run_family(prop, name, topo, max_updates, props=None, **extra):
                              else ["outcome:circular"]),
         max_wall_s=extra.get("max_wall_s", 1800),
     )
-
-
-PUSH_BASED_KINDS = ("linear", "next", "prev", "step", "avg", "sum", "stack")
 
 
 def spec_delay_before_push(topo):
